@@ -12,7 +12,8 @@ RULE = (
     "mapping_sample_size_order in {[0,0], default [.5,1], [1,1]}; every NumPy draw of the upper-bound "
     "heuristic (np.random.permutation / choice) is a choice point owned by the explorer: ALL answer "
     "sequences for small pairs (state-key pruning on direction/goal/mappings tried/best distortion), "
-    "every single deviation from the default answers (deviation bound 1) for the rest. Oracle: exact "
+    "every single deviation from the default answers (deviation bound 1) for the rest. Larger graphs (6-7 vertices: trees, unicyclic, ...; "
+    "hubs, spiders, caterpillars): all pairs under default answers against the exact oracle and all/systematic relabellings (lb must be 0). Oracle: exact "
     "mGH by enumeration of all |Y|^|X| maps. state = (pair, order); transition = one execution of "
     "gromov_hausdorff under one answer sequence; non-trivial = lower bound < upper bound for some "
     "schedule, or different schedules give different upper bounds."
@@ -24,7 +25,7 @@ ASSUMPTIONS = [
 
 
 def bounds(tier):
-    return {"max_vertices": 4 if tier == "quick" else 5, "orders": ORDERS,
+    return {"max_vertices": 4 if tier == "quick" else 5, "orders": ORDERS, "larger_graphs": "unlabelled trees + unicyclic on 6 vertices and trees on 7 (quick) / all connected on 6 and unicyclic on 7 (thorough): all pairs with exact oracle (7-vs-7 in thorough: a fixed quarter), isomorphic relabellings (all 720 for 6 vertices; rotations, reversal, transpositions for 7)",
             "full_schedule_exploration_up_to_vertices": 3 if tier == "quick" else 4, "deviation_bound_otherwise": 1}
 
 
@@ -32,7 +33,44 @@ def graphs(nmax):
     return [g for n in range(1, nmax + 1) for g in mgh.labelled_graphs(n, connected_only=True)]
 
 
+def big_set(tier):
+    """Unlabelled trees and unicyclic graphs on 6 vertices + trees on 7 (quick); thorough adds every
+    connected graph on 6 vertices and the unicyclic graphs on 7.  Hub/spider/caterpillar shapes with
+    diameter >= 3 are where the curvature-based lower bound has something to prove."""
+    if tier == "quick":
+        return mgh.atlas(6, 1) + mgh.atlas(7, 0)
+    return mgh.atlas(6) + mgh.atlas(7, 1)
+
+
+def relabellings(n, full):
+    import itertools
+
+    if full:
+        return [list(p) for p in itertools.permutations(range(n))]
+    out = [list(range(n))[::-1]]
+    out += [[(i + r) % n for i in range(n)] for r in range(1, n)]
+    for a in range(n):
+        for b in range(a + 1, n):
+            p = list(range(n))
+            p[a], p[b] = p[b], p[a]
+            out.append(p)
+    return out
+
+
 def cases(tier):
+    for c in small_cases(tier):
+        yield c
+    S = big_set(tier)
+    for i in range(len(S)):
+        yield {"kind": "iso", "i": i}
+    for i in range(len(S)):
+        for j in range(i, len(S)):
+            if tier == "thorough" and len(S[i]) == 7 and len(S[j]) == 7 and (i + j) % 4:
+                continue  # 7-vs-7 oracle is 0.8 s: a quarter of those pairs (fixed pattern, reported in bounds)
+            yield {"kind": "big-pair", "i": i, "j": j}
+
+
+def small_cases(tier):
     nmax = 4 if tier == "quick" else 5
     full_upto = 3 if tier == "quick" else 4
     gs = graphs(nmax)
@@ -74,9 +112,55 @@ def check_bracket(ctx, A, B, truth2, res, what):
     return lb, ub
 
 
+def run_big(case, ctx):
+    """Larger graphs (6-7 vertices), default RNG answers: lower-bound soundness needs diameter >= 3."""
+    import warnings
+
+    from mc.choices import Chooser
+    from persim import gromov_hausdorff
+
+    S = big_set(ctx.tier)
+    A = S[case["i"]]
+    with _seam.installed():
+        if case["kind"] == "iso":
+            n = len(A)
+            for p in relabellings(n, full=(n <= 6)):
+                B = mgh.relabel(A, p)
+                for X, Y in ((A, B), (B, A)):
+                    _seam.cache = {}
+                    _seam.start_run(Chooser(()))
+                    ctx.trans()
+                    res = gromov_hausdorff(np.array(X), np.array(Y))
+                    ctx.state(("iso", case["i"], p, X is A))
+                    check_bracket(ctx, X, Y, {0}, res, {"relabelling": p})
+            ctx.nontriv("isomorphic_relabellings_of_a_%d_vertex_graph" % n)
+            ctx.outcome(("iso", case["i"]))
+            return
+        B = S[case["j"]]
+        DA, DB = mgh.bfs_dist(A).astype(np.int64), mgh.bfs_dist(B).astype(np.int64)
+        truth2 = {mgh.exact_double(DA, DB)}
+        for X, Y in ((A, B), (B, A)):
+            for oname in ("default", "zero"):
+                kw = {} if ORDERS[oname] is None else {"mapping_sample_size_order": np.array(ORDERS[oname])}
+                _seam.cache = {}
+                _seam.start_run(Chooser(()))
+                ctx.trans()
+                res = gromov_hausdorff(np.array(X), np.array(Y), **kw)
+                ctx.state(("big", case["i"], case["j"], X is A, oname))
+                r = check_bracket(ctx, X, Y, truth2, res, {"order": oname, "answers": "default"})
+                if r and X is A and oname == "default":
+                    ctx.outcome(("big", r))
+                    if r[0] >= 1.0:
+                        ctx.nontriv("lower_bound_of_2_or_more_halves_proved")
+                    elif r[0] < r[1]:
+                        ctx.nontriv("bracket_not_tight")
+
+
 def run_case(case, ctx):
     from persim import gromov_hausdorff
 
+    if case.get("kind") in ("iso", "big-pair"):
+        return run_big(case, ctx)
     A, B = case["A"], case["B"]
     truth2 = {mgh.exact_double(mgh.bfs_dist(A).astype(np.int64), mgh.bfs_dist(B).astype(np.int64))}
     NA, NB = np.array(A), np.array(B)
